@@ -1,7 +1,10 @@
 use super::convert::{date_to_days, days_to_date, year_doy_to_days, year_month_to_doy};
 use crate::{
-    errors::{out_of_range::create_custom_oor, AstrolabeError},
-    util::leap::is_leap_year,
+    errors::{
+        out_of_range::{create_custom_oor, create_simple_oor},
+        AstrolabeError,
+    },
+    util::constants::{MAX_DATE, MIN_DATE},
 };
 
 pub(crate) fn set_year(days: i32, year: i32) -> Result<i32, AstrolabeError> {
@@ -29,46 +32,11 @@ pub(crate) fn set_day_of_year(days: i32, day_of_year: u32) -> Result<i32, Astrol
 }
 
 pub(crate) fn add_years(days: i32, years: u32) -> Result<i32, AstrolabeError> {
-    let (year, month, mut day) = days_to_date(days);
-    let mut target_year: i32 = year + years as i32;
-    // Skip year 0
-    if year < 0 && target_year >= 0 {
-        target_year += 1;
-    }
-
-    if is_leap_year(year) && !is_leap_year(target_year) && month == 2 && day == 29 {
-        day = 28;
-    }
-
-    date_to_days(target_year, month, day)
+    shift_months(days, years as i64 * 12)
 }
 
 pub(crate) fn add_months(days: i32, months: u32) -> Result<i32, AstrolabeError> {
-    let (year, month, day) = days_to_date(days);
-    let mut total_months = year * 12 + month as i32 + months as i32 - 1;
-    // Skip year 0
-    if total_months <= 11 {
-        total_months += 12;
-    }
-
-    let target_year = total_months / 12;
-    let target_month = if (month + months) % 12 == 0 {
-        12
-    } else {
-        (month + months) % 12
-    };
-    let target_day = match day {
-        day if day < 29 => day,
-        _ => {
-            let (_, mdays) = year_month_to_doy(target_year, target_month).unwrap();
-            if day > mdays {
-                mdays
-            } else {
-                day
-            }
-        }
-    };
-    date_to_days(target_year, target_month, target_day)
+    shift_months(days, months as i64)
 }
 
 pub(crate) fn add_days(old_days: i32, days: u32) -> Result<i32, AstrolabeError> {
@@ -81,50 +49,11 @@ pub(crate) fn add_days(old_days: i32, days: u32) -> Result<i32, AstrolabeError> 
 }
 
 pub(crate) fn sub_years(days: i32, years: u32) -> Result<i32, AstrolabeError> {
-    let (year, month, mut day) = days_to_date(days);
-    let mut target_year: i32 = year - years as i32;
-    // Skip year 0
-    if year > 0 && target_year <= 0 {
-        target_year -= 1;
-    }
-
-    if is_leap_year(year) && !is_leap_year(target_year) && month == 2 && day == 29 {
-        day = 28;
-    }
-
-    date_to_days(target_year, month, day)
+    shift_months(days, -(years as i64 * 12))
 }
 
 pub(crate) fn sub_months(days: i32, months: u32) -> Result<i32, AstrolabeError> {
-    let (year, month, day) = days_to_date(days);
-    let mut total_months = year * 12 + month as i32 - months as i32 - 1;
-    // Skip year 0
-    if total_months <= 11 {
-        if year > 0 {
-            total_months -= 24;
-        } else {
-            total_months -= 12;
-        }
-    }
-
-    let target_year = total_months / 12;
-    let target_month = if (month - months) % 12 == 0 {
-        12
-    } else {
-        (month - months) % 12
-    };
-    let target_day = match day {
-        day if day < 29 => day,
-        _ => {
-            let (_, mdays) = year_month_to_doy(target_year, target_month).unwrap();
-            if day > mdays {
-                mdays
-            } else {
-                day
-            }
-        }
-    };
-    date_to_days(target_year, target_month, target_day)
+    shift_months(days, -(months as i64))
 }
 
 pub(crate) fn sub_days(old_days: i32, days: u32) -> Result<i32, AstrolabeError> {
@@ -134,4 +63,32 @@ pub(crate) fn sub_days(old_days: i32, days: u32) -> Result<i32, AstrolabeError> 
             days,
         ))
     })
+}
+
+/// Moves the date by the given number of calendar months (negative to move back). The day of month is kept,
+/// or reduced to the last day of the target month if that month is shorter.
+fn shift_months(days: i32, months: i64) -> Result<i32, AstrolabeError> {
+    let (year, month, day) = days_to_date(days);
+    // Count months on astronomical years (1 BC = 0), which are continuous across the missing year 0
+    let astronomical_year = if year.is_negative() { year + 1 } else { year };
+    let total_months = astronomical_year as i64 * 12 + month as i64 - 1 + months;
+
+    let target_astronomical_year = total_months.div_euclid(12);
+    let target_month = total_months.rem_euclid(12) as u32 + 1;
+    let target_year = if target_astronomical_year <= 0 {
+        target_astronomical_year - 1
+    } else {
+        target_astronomical_year
+    };
+    let target_year = i32::try_from(target_year).map_err(|_| {
+        create_simple_oor(
+            "year",
+            MIN_DATE.0 as i128,
+            MAX_DATE.0 as i128,
+            target_year as i128,
+        )
+    })?;
+
+    let (_, mdays) = year_month_to_doy(target_year, target_month)?;
+    date_to_days(target_year, target_month, day.min(mdays))
 }
